@@ -5,6 +5,7 @@ package isolation
 import (
 	"bytes"
 	"context"
+	"crypto/sha256"
 	"fmt"
 	"os"
 	"path/filepath"
@@ -12,6 +13,7 @@ import (
 
 	"github.com/tetratelabs/wazero"
 	"github.com/tetratelabs/wazero/api"
+	"github.com/tetratelabs/wazero/experimental"
 	"github.com/tetratelabs/wazero/imports/wasi_snapshot_preview1"
 
 	"verifharness/plan"
@@ -80,11 +82,12 @@ func first(err error) string {
 }
 
 type world struct {
-	rts   []wazero.Runtime
-	cache wazero.CompilationCache
-	ctx   context.Context
-	cur   *instRun // instance whose call currently runs (for the host function)
-	sched bool     // host function yields to the scheduler
+	rts      []wazero.Runtime
+	cache    wazero.CompilationCache
+	ctx      context.Context
+	compiled map[string]wazero.CompiledModule
+	cur      *instRun // instance whose call currently runs (for the host function)
+	sched    bool     // host function yields to the scheduler
 }
 
 func newRuntime(engine string, cache wazero.CompilationCache, w *world) wazero.Runtime {
@@ -97,6 +100,7 @@ func newRuntime(engine string, cache wazero.CompilationCache, w *world) wazero.R
 	if cache != nil {
 		cfg = cfg.WithCompilationCache(cache)
 	}
+	cfg = cfg.WithCoreFeatures(api.CoreFeaturesV2 | experimental.CoreFeaturesThreads)
 	rt := wazero.NewRuntimeWithConfig(w.ctx, cfg)
 	if _, err := wasi_snapshot_preview1.Instantiate(w.ctx, rt); err != nil {
 		panic(err)
@@ -129,9 +133,19 @@ func (w *world) instantiate(rt wazero.Runtime, bin []byte, root string, idx int)
 	in := &instRun{stdout: &bytes.Buffer{}, resume: make(chan struct{}), parked: make(chan struct{})}
 	in.dir = filepath.Join(root, fmt.Sprintf("i%d", idx))
 	os.MkdirAll(in.dir, 0o755)
-	cm, err := rt.CompileModule(w.ctx, bin)
-	if err != nil {
-		panic(fmt.Sprintf("harness: compile: %v", err))
+	// one CompiledModule per (runtime, binary): instances of the SAME compiled module
+	key := fmt.Sprintf("%p/%x", rt, sha256.Sum256(bin))
+	cm := w.compiled[key]
+	if cm == nil {
+		var err error
+		cm, err = rt.CompileModule(w.ctx, bin)
+		if err != nil {
+			panic(fmt.Sprintf("harness: compile: %v", err))
+		}
+		if w.compiled == nil {
+			w.compiled = map[string]wazero.CompiledModule{}
+		}
+		w.compiled[key] = cm
 	}
 	mod, err := rt.InstantiateModule(w.ctx, cm, wazero.NewModuleConfig().WithName("").WithStdout(in.stdout).
 		WithFSConfig(wazero.NewFSConfig().WithDirMount(in.dir, "/")).WithArgs(fmt.Sprintf("inst%d", idx)))
@@ -192,7 +206,7 @@ func snapshot(in *instRun) string {
 
 func (c11) Run(t *tape.Tape, cfg sim.Config) (res sim.Result) {
 	ctx := context.Background()
-	o := plan.Opts{MinFuncs: 3, MaxFuncs: 7, MaxAtoms: 6, Host: true, Traps: true, Exit: true, Grow: true, Table: true, Segments: true, WASI: true, HostTags: 4}
+	o := plan.Opts{MinFuncs: 3, MaxFuncs: 7, MaxAtoms: 6, Host: true, Traps: true, Exit: true, Grow: true, Table: true, Segments: true, WASI: true, HostTags: 4, GRef: true, Atomics: true}
 	pa := plan.Generate(t, o)
 	pa.Name = "pa"
 	pb := plan.Generate(t, o)
